@@ -31,6 +31,8 @@ type Step struct {
 	Post   *world.World
 	Path   []string // action names leading to Pre
 	Report func(v Violation)
+	// Count adds to the evaluation counters (E2 batteries run inside hooks).
+	Count func(evals int, class string)
 }
 
 // Violation is one oracle failure.
@@ -60,12 +62,19 @@ type Scenario struct {
 	// Model (optional) advances a reference model kept in Post.Truth; it runs on
 	// every transition before Monitor, in the search and in every replay.
 	Model func(st *Step)
+	// State (optional) runs once per newly discovered canonical state (st.Post):
+	// the place for E2 batteries executed on clones of every reachable state.
+	State func(st *Step)
 	// Cover classifies a transition for the coverage histogram / vacuity guards.
 	Cover func(st *Step) []string
 	Depth int           // max path length (0 = until fixpoint)
 	Sat   time.Duration // saturation for instants in the canonical key
 	// MaxStates caps the search (0 = none); hitting it makes the run non-exhaustive.
 	MaxStates int
+	// ShardN > 1 splits the search on the level-1 subtrees: this instance only
+	// follows the root's actions whose index is ShardIdx modulo ShardN (the union
+	// of all shards is the full search; states may be visited by several shards).
+	ShardIdx, ShardN int
 	// Need lists coverage classes that must be hit (vacuity guard).
 	Need []string
 }
@@ -73,6 +82,7 @@ type Scenario struct {
 // Result summarises one scenario's exploration.
 type Result struct {
 	Scenario    string
+	Evaluations int
 	States      int
 	Transitions int
 	DepthDone   int
@@ -139,13 +149,22 @@ outer:
 				break outer
 			}
 			acts := sc.Actions(st, n.w)
-			for _, a := range acts {
+			for ai, a := range acts {
+				if sc.ShardN > 1 && len(n.path) == 0 && ai%sc.ShardN != sc.ShardIdx {
+					continue
+				}
 				w2 := n.w.Clone()
 				obs := a.Run(st, w2)
 				res.Transitions++
 				full := append(append([]string(nil), n.path...), a.Name)
 				step := &Step{S: st, Pre: n.w, Act: a, Obs: obs, Post: w2, Path: n.path}
 				step.Report = func(v Violation) { report(v, full) }
+				step.Count = func(n int, class string) {
+					res.Evaluations += n
+					if class != "" {
+						res.Cover[class] += n
+					}
+				}
 				if sc.Model != nil {
 					sc.Model(step)
 				}
@@ -164,6 +183,9 @@ outer:
 				k := hashKey(w2.Canon(sat))
 				if !seen[k] {
 					seen[k] = true
+					if sc.State != nil {
+						sc.State(step)
+					}
 					nn := node{w: w2, path: full, key: k}
 					next = append(next, nn)
 					all = append(all, node{path: full, key: k})
@@ -253,7 +275,7 @@ func replayFrom(sc Scenario, w *world.World, path []string, visit func(st *Step)
 		}
 		pre := w.Clone()
 		obs := act.Run(st, w)
-		step := &Step{S: st, Pre: pre, Act: *act, Obs: obs, Post: w, Path: done, Report: func(Violation) {}}
+		step := &Step{S: st, Pre: pre, Act: *act, Obs: obs, Post: w, Path: done, Report: func(Violation) {}, Count: func(int, string) {}}
 		if sc.Model != nil {
 			sc.Model(step)
 		}
